@@ -58,7 +58,7 @@ am = open(os.path.join(A, "tools/manifest.py")).read()
 mp = os.path.join(V, "tools/manifest.py"); ms = open(mp).read()
 if ' "%s": dict(' % PID in am and ' "%s": dict(' % PID not in ms:
     i = am.index(' "%s": dict(' % PID); j = am.index('ref="4/%s"),' % PID, i) + len('ref="4/%s"),' % PID)
-    ms = ms.replace("\n}\n\ndef main", "\n" + am[i:j] + "\n}\n\ndef main", 1)
+    ms = ms.replace("\n}\n", "\n" + am[i:j] + "\n}\n", 1)
     open(mp, "w").write(ms); print("manifest: CLAIMED entry added")
 else:
     print("manifest: no entry taken (add by hand)")
